@@ -113,7 +113,7 @@ def to_ics(o, uid="u1", extra=()):
         lines += rec_lines(kind, o["rec"])
     lines += list(extra)
     return ("BEGIN:VCALENDAR\r\nPRODID:-//verif//C16//EN\r\nVERSION:2.0\r\nBEGIN:%s\r\nUID:%s\r\n"
-            "DTSTAMP:20200101T000000Z\r\nSUMMARY:s\r\n%s\r\nEND:%s\r\nEND:VCALENDAR\r\n" % (t, uid, "\r\n".join(lines), t))
+            "DTSTAMP:20200101T000000Z\r\nSUMMARY;X-P=1:s\r\n%s\r\nEND:%s\r\nEND:VCALENDAR\r\n" % (t, uid, "\r\n".join(lines), t))
 
 
 # ------------------------------------------------------------------------------------------ Gallina text
@@ -185,6 +185,10 @@ Definition mk_item (id : Z) (o : obj) : item :=
 Definition run_report (filters : list (list elem)) (objs : list obj) : option (list Z) :=
   let items := (fix mk (i : Z) (l : list obj) := match l with [] => [] | o :: r => mk_item i o :: mk (i + 1) r end) 0 objs in
   option_map (map it_id) (report pm fuel_of filters items).
+Definition eq_oname (a b : option cname) := match a, b with Some x, Some y => cname_eqb x y | None, None => true | _, _ => false end.
+Definition eq_simplify (a b : option cname * xt * xt * bool) : bool :=
+  let '(t1, s1, e1, b1) := a in let '(t2, s2, e2, b2) := b in eq_oname t1 t2 && xeqb s1 s2 && xeqb e1 e2 && Bool.eqb b1 b2.
+Definition run_test_filter (f : list elem) (o : obj) : option bool := test_filter pm fuel_of (mk_item 0 o) f.
 Definition fbt (t : fbtype) : Z := match t with FBBusy => 0 | FBFree => 1 | FBTentative => 2 end.
 Definition eq_fb (a b : xt * xt * Z) := xeqb (fst (fst a)) (fst (fst b)) && xeqb (snd (fst a)) (snd (fst b)) && (snd a =? snd b).
 Definition run_fb (maxo : Z) (r : trange) (objs : list (obj * bool * fbtype)) : option (list (xt * xt * Z)) :=
@@ -195,7 +199,7 @@ Definition run_fb (maxo : Z) (r : trange) (objs : list (obj * bool * fbtype)) : 
 
 
 # ------------------------------------------------------------------------------------------ filters
-# element = ["ind"] | ["tr", start, end] | ["pf", p] (p=1 always true: UID defined; p=0 never: X-NONE defined)
+# element = ["ind"] | ["tr", start, end] | ["pf", p, spelling?] (p=1 always true, p=0 never, p=2 true on VCALENDAR)
 #           | ["cf", NAME, [children]] | ["unk"]
 def enc_elem(e):
     k = e[0]
@@ -213,8 +217,34 @@ def enc_elem(e):
 NAMES = {"VCALENDAR": "NCal", "VEVENT": "NEvent", "VTODO": "NTodo", "VJOURNAL": "NJournal"}
 
 
-def enc_name(n):
+def enc_cname(n):
     return NAMES.get(n) or "(NOther %s)" % z(sum(ord(c) for c in n))
+
+
+def enc_name(n):
+    """the name attribute as spelled -> rawname (its upper-casing + whether it is upper case)"""
+    return "(Build_rawname %s %s)" % (enc_cname(n.upper()), "true" if n == n.upper() else "false")
+
+
+def spell(rng, name, mode=None):
+    """the same name in another spelling: upper, lower, capitalised or random mixed case"""
+    mode = mode or rng.choice(["upper", "upper", "lower", "cap", "mixed"])
+    if mode == "upper":
+        return name.upper()
+    if mode == "lower":
+        return name.lower()
+    if mode == "cap":
+        return name[:1].upper() + name[1:].lower()
+    return "".join(c.upper() if rng.random() < 0.5 else c.lower() for c in name)
+
+
+def spelling(rng, mode=None):
+    """spelled names for one query: VCALENDAR, the prop-filter and param-filter names"""
+    return {k: spell(rng, k, mode) for k in ("VCALENDAR", "VEVENT", "VTODO", "VJOURNAL", "VALARM", "VFREEBUSY",
+                                            "UID", "VERSION", "X-NONE", "SUMMARY", "X-P", "X-Q")} | {"param": rng.random() < 0.3}
+
+
+UPPER = None      # default spelling: everything upper case, prop-filters without param-filter
 
 
 def enc_filters(fs):
@@ -234,8 +264,15 @@ def xml_elem(e):
         return "<C:time-range%s%s/>" % ((' start="%s"' % fmt_dt(e[1])) if e[1] is not None else "",
                                         (' end="%s"' % fmt_dt(e[2])) if e[2] is not None else "")
     if k == "pf":
-        # 1: defined on every component of the grammar; 2: defined on every VCALENDAR; 0: defined nowhere
-        return '<C:prop-filter name="%s"/>' % {1: "UID", 2: "VERSION"}.get(e[1], "X-NONE")
+        # 1: true on every component of the grammar (UID defined, or SUMMARY has the parameter X-P);
+        # 2: VERSION, defined on every VCALENDAR; 0: true nowhere (X-NONE defined / SUMMARY has a parameter X-Q)
+        sp = e[2] if len(e) > 2 and e[2] else {}
+        g = lambda k: sp.get(k, k)
+        if e[1] == 2:
+            return '<C:prop-filter name="%s"/>' % g("VERSION")
+        if sp.get("param"):
+            return '<C:prop-filter name="%s"><C:param-filter name="%s"/></C:prop-filter>' % (g("SUMMARY"), g("X-P") if e[1] == 1 else g("X-Q"))
+        return '<C:prop-filter name="%s"/>' % (g("UID") if e[1] == 1 else g("X-NONE"))
     if k == "cf":
         return '<C:comp-filter name="%s">%s</C:comp-filter>' % (e[1], "".join(xml_elem(c) for c in e[2]))
     return '<C:param-filter name="X"/>'
@@ -772,3 +809,33 @@ def probe_ranges(o, extra_points=()):
         out.append([None, b])
         out.append([None, b + 1])
     return out
+
+
+# ------------------------------------------------------------------------------------------ filters at function level
+def filter_elements(fs):
+    """the <C:filter> elements of a query, as the request handler hands them to simplify_prefilters / test_filter"""
+    import defusedxml.ElementTree as DefusedET
+    xmlutils = _mods()[3]
+    root = DefusedET.fromstring(xml_query(fs))
+    return root.findall(xmlutils.make_clark("C:filter"))
+
+
+def real_simplify(fs):
+    rfilter = _mods()[2]
+    try:
+        tag, a, b, simple = rfilter.simplify_prefilters(filter_elements(fs), "VCALENDAR")
+    except Exception as e:  # noqa
+        return "ERR:%s" % type(e).__name__
+    return (tag, xt_of_ts(a, rfilter), xt_of_ts(b, rfilter), bool(simple))
+
+
+def real_test_filter(o, f):
+    """radicale.app.report.test_filter("VCALENDAR", item, <filter element>) on a real Item"""
+    _, ritem, _, _ = _mods()
+    from radicale.app import report
+    try:
+        it = ritem.Item(collection_path="u/c", vobject_item=parse(o))
+        el = filter_elements([f])[0]
+        return bool(report.test_filter("VCALENDAR", it, el))
+    except Exception as e:  # noqa
+        return "ERR:%s" % type(e).__name__
